@@ -16,8 +16,10 @@ from vf.props.e2e import outcome_label
 HC_NAME = re.compile(r"[A-Z0-9_-]+")
 BREACHES = ['name', 'name-empty', 'sul-id', 'hdr-id', 'ident-value', 'signed', 'unframed', 'two-frames', 'nonuniform',
             'unit', 'attr-unit', 'index-type', 'eq-type', 'eq-location']
+# soft-enumeration values assigned to an existing object AFTER the mode changed (object built in the other mode)
+LATE = ['late-unit', 'late-index-type', 'late-eq-type', 'late-attr-unit']
 NAME_BREACH = ('name', 'name-empty', 'sul-id', 'hdr-id', 'ident-value')
-BAD_NAMES = ['lower', 'With Space', 'DOT.TED', 'Mixed-Case', 'UPPER lower', 'a', 'X#1']
+BAD_NAMES = ['lower', 'With Space', 'DOT.TED', 'Mixed-Case', 'UPPER lower', 'a', 'X#1', 'NEWLINE\n', 'TAB\tBED', ' LEAD']
 
 
 def clean_profile():
@@ -40,6 +42,9 @@ def hc_spec(draw):
     n = draw(st.sampled_from([0, 0, 1, 1, 1, 2, 3]))
     spec['breaches'] = [{'k': draw(st.sampled_from(BREACHES)), 'sel': draw(st.integers(0, 100)),
                          'text': draw(st.sampled_from(BAD_NAMES))} for _ in range(n)]
+    if n == 0 and draw(st.integers(0, 2)) == 0:
+        # build the clean specification in the OTHER mode, switch, then assign a non-standard value and write
+        spec['late'] = draw(st.sampled_from(LATE))
     return spec
 
 
@@ -250,8 +255,56 @@ class C17(Property):
         def flag():
             return bool(global_config.high_compat_mode)
 
+        def do_late(spec, inside, late):
+            """Objects built in the other mode; a non-standard soft-enumeration value assigned in the current mode."""
+            import contextlib
+            other = contextlib.nullcontext() if inside else high_compatibility_mode()
+            saved = flag()
+            global_config.high_compat_mode = False      # build in the other mode, via the public context
+            try:
+                with other:
+                    b = B.build(spec, ctx.scratch)
+            except B.BuildError:
+                global_config.high_compat_mode = saved
+                return
+            global_config.high_compat_mode = saved
+            labels.add(('in:' if inside else 'out:') + late)
+            stats['breach'] = True
+            ops = spec['lfs'][0]['ops']
+            try:
+                with dw.capture_warnings() as cap:
+                    if late == 'late-unit':
+                        j = next(k for k, op in enumerate(ops) if op['t'] == 'channel')
+                        b.items[(0, j)].units.value = 'furlong'
+                    elif late == 'late-index-type':
+                        j = next(k for k, op in enumerate(ops) if op['t'] == 'frame')
+                        b.items[(0, j)].index_type.value = 'MY-OWN-INDEX'
+                    elif late == 'late-eq-type':
+                        j = next(k for k, op in enumerate(ops) if op['t'] == 'equipment')
+                        b.items[(0, j)]._type.value = 'Gizmo'
+                    else:
+                        j = next(k for k, op in enumerate(ops) if op['t'] == 'equipment')
+                        b.items[(0, j)].height.units = 'cubit'
+                outcome = 'accepted'
+            except StopIteration:
+                return
+            except Exception:
+                outcome = 'raised'
+            if inside and outcome == 'accepted':
+                viol.append(Violation(f"breach-accepted-in-mode/{late}", "assigned inside the mode to an object built "
+                                                                         "outside: no exception"))
+            if not inside and outcome == 'raised':
+                viol.append(Violation(f"rejected-outside-mode/{late}", "assigned outside the mode to an object built "
+                                                                       "inside: raised"))
+            if not inside and outcome == 'accepted' and not cap.records:
+                viol.append(Violation(f"no-warning-outside-mode/{late}", "accepted outside the mode without a WARNING"))
+
         def do_write(spec, inside):
             spec = copy.deepcopy(spec)
+            late = spec.pop('late', None)
+            if late:
+                spec.pop('breaches', None)
+                return do_late(spec, inside, late)
             breaches = spec.pop('breaches', [])
             spec.pop('_touched', None)
             kinds = []
@@ -348,7 +401,7 @@ def summarize(seq):
     out = []
     for it in seq:
         if it['do'] == 'write':
-            out.append('w[' + ','.join(b['k'] for b in it['spec'].get('breaches', [])) + ']')
+            out.append('w[' + ','.join(b['k'] for b in it['spec'].get('breaches', [])) + (it['spec'].get('late') or '') + ']')
         elif it['do'] == 'block':
             out.append({'block:' + it['exit']: summarize(it['body'])})
         else:
